@@ -137,7 +137,9 @@ def print_assumptions(prop):
 
 # ---- Python -> Coq term printers -----------------------------------------
 def cnat(n):
-    assert 0 <= n < 5000, f"nat literal too large: {n}"
+    # above 5000 Coq reads a nat literal through Nat.of_num_uint (a warning, not an error); ids of arrays created late in a
+    # long-running worker reach tens of thousands - sizes and counts never do
+    assert 0 <= n < 300000, f"nat literal too large: {n}"
     return f"{int(n)}"
 
 
@@ -180,7 +182,7 @@ def run_case_file(name, imports, defs, exprs, timeout=900):
     d = CASES
     d.mkdir(parents=True, exist_ok=True)
     path = d / f"{name}.v"
-    body = [f"From CubedV Require Import {imports}.", "Open Scope nat_scope.", defs or ""]
+    body = [f"From CubedV Require Import {imports}.", 'Set Warnings "-abstract-large-number".', "Open Scope nat_scope.", defs or ""]
     for i, e in enumerate(exprs):
         body.append(f"Definition case_{i} : bool := {e}.")
     body.append("Definition all_cases : list bool := [" + "; ".join(f"case_{i}" for i in range(len(exprs))) + "].")
@@ -213,7 +215,7 @@ def coq_eval(name, imports, defs, expr, timeout=300):
     d.mkdir(parents=True, exist_ok=True)
     path = d / f"{name}.v"
     path.write_text(
-        f"From CubedV Require Import {imports}.\nOpen Scope nat_scope.\n{defs or ''}\nEval vm_compute in ({expr}).\n"
+        f"From CubedV Require Import {imports}.\nSet Warnings \"-abstract-large-number\".\nOpen Scope nat_scope.\n{defs or ''}\nEval vm_compute in ({expr}).\n"
     )
     rc, out = _run(["timeout", str(timeout), "coqc", "-noglob", "-Q", str(COQ), "CubedV", str(path)], cwd=d, timeout=timeout + 30)
     for ext in (".vo", ".vok", ".vos", ".glob"):
